@@ -358,6 +358,9 @@ def run(ctx):
         for i in range(ctx.budget(20000, 150000)):
             if not ctx.alive():
                 break
+            if rng.random() < 0.01:
+                from .. import noise
+                noise.burst(ctx, rng, exclude=('versions', 'discovery'))
             ports, kinds = gen_list(rng)
             if i < 200:
                 ctx.sample({"ports": ports}, tag="n=%d" % len(ports), per_tag=1)
@@ -375,6 +378,7 @@ def run(ctx):
                 "entries:tuple", "entries:ListPortInfo", "entries:list"):
         ctx.need(cls, 100)
     ctx.need("monitor:return values checked", 50000)
+    ctx.need("history: after calls to other library functions", 100)
     ctx.need("history: empty list on a re-used object", 200)
     ctx.need("enumerator unavailable (returns None)", 100)
     ctx.need("history: listing asked again after the caller emptied the returned list", 2000)
